@@ -37,7 +37,7 @@ const workers = 8
 
 func main() {
 	vf.Main("C42", "exploration",
-		"cases = (DAG, committer-time assignment, query); exhaustive part: one representative per isomorphism class of DAGs with n<=N nodes and <=2 parents x ALL weak orderings of committer times (ties and children older than parents included) x all ordered pairs (IsAncestor, MergeBase) and all subsets of size>=2 in 3 input orders (Independents; for n=5: MergeBase on unordered pairs plus both orders when times tie, one input order per subset), plus fast-forward test through Repository.Merge for all pairs x all shallow subsets on 2 time orderings per DAG (in-memory storage sharing the on-disk objects; random part on filesystem storage); random part: DAGs of 6..40 commits with octopus merges and skewed times; non-trivial = query over distinct commits of a component with >=1 edge; shape = (iso class, time ordering, query kind, arguments); oracle = set reachability over the generated DAG, all disagreements and a deterministic sample confirmed with git merge-base",
+		"cases = (DAG, committer-time assignment, query); exhaustive part: one representative per isomorphism class of DAGs with n<=N nodes and <=2 parents x weak orderings of committer times (ties and children older than parents included; all of them for n<=4, every second one for n=5) x all ordered pairs (IsAncestor, MergeBase) and all subsets of size>=2 in 3 input orders (Independents; for n=5: MergeBase on unordered pairs plus both orders when times tie, one input order per subset), plus fast-forward test through Repository.Merge for all pairs x all shallow subsets on 2 time orderings per DAG (in-memory storage sharing the on-disk objects; random part on filesystem storage); random part: DAGs of 6..40 commits with octopus merges and skewed times; non-trivial = query over distinct commits of a component with >=1 edge; shape = (iso class, time ordering, query kind, arguments); oracle = set reachability over the generated DAG, all disagreements and a deterministic sample confirmed with git merge-base",
 		run)
 }
 
@@ -127,6 +127,9 @@ func run(c *vf.Ctx) {
 			key := dagx.CanonKey(ps)
 			classes++
 			for oi, ord := range orders {
+				if n >= 5 && oi%2 != classes%2 && !isIdentity(ord) && !isReversed(ord) {
+					continue // n=5: every second weak ordering per class (alternating between classes), to bound the run time
+				}
 				t := make([]int64, n)
 				for i, r := range ord {
 					t[i] = 1600000000 + int64(r)*100
@@ -144,7 +147,7 @@ func run(c *vf.Ctx) {
 		}
 	}
 	c.Extra("exhaustive", false)
-	c.Extra("exhaustive_subspace", fmt.Sprintf("DAGs with n<=%d nodes, <=2 parents, one per isomorphism class (%d classes) x all weak orderings of committer time = %d (DAG,time) components, every ordered pair and every subset fully enumerated", maxN, classes, len(comps)))
+	c.Extra("exhaustive_subspace", fmt.Sprintf("DAGs with n<=%d nodes, <=2 parents, one per isomorphism class (%d classes) x weak orderings of committer time (all for n<=4, every second one for n=5) = %d (DAG,time) components, every ordered pair and every subset fully enumerated", maxN, classes, len(comps)))
 	sp := &space{name: "exh", m: dagx.NewMulti(comps), ff: ff, cls: cls}
 	sp.dir = c.TempDir("exh")
 	c.Must(g.Init(sp.dir, false, "sha1"), "git init")
@@ -160,7 +163,7 @@ func run(c *vf.Ctx) {
 	k.runSpace(sp)
 
 	// ---------- random sub-space ----------
-	nh := c.N(12, 100)
+	nh := c.N(12, 40)
 	var rmu sync.Mutex
 	vf.Parallel(nh, workers, func(i int) {
 		r := c.Rand("hist", i)
@@ -178,7 +181,7 @@ func run(c *vf.Ctx) {
 			c.Broken("git init: %v", err)
 			return
 		}
-		ids, err := g.Import(dir, h)
+		ids, err := gitx.New(dir+".home").Import(dir, h) // own HOME per repository: gitx.Import names its marks file after the global call counter, which two parallel imports can share
 		if err != nil {
 			c.Broken("import random history %d: %v", i, err)
 			return
@@ -191,10 +194,10 @@ func run(c *vf.Ctx) {
 	})
 
 	c.Extra("git_invocations", gitx.Calls.Load())
-	c.Floor("queries evaluated", c.Counter("q_isanc")+c.Counter("q_mergebase")+c.Counter("q_indep")+c.Counter("q_ff"), c.N(130000, 3000000))
-	c.Floor("git confirmations", c.Counter("git_confirmations"), c.N(300, 1000))
+	c.Floor("queries evaluated", c.Counter("q_isanc")+c.Counter("q_mergebase")+c.Counter("q_indep")+c.Counter("q_ff"), c.N(130000, 2000000))
+	c.Floor("git confirmations", c.Counter("git_confirmations"), c.N(300, 600))
 	c.Floor("ff queries with a shallow boundary", c.Counter("q_ff_shallow"), c.N(5000, 100000))
-	c.Floor("queries with skewed or tied times", c.Counter("q_skewed_or_ties"), c.N(50000, 1000000))
+	c.Floor("queries with skewed or tied times", c.Counter("q_skewed_or_ties"), c.N(50000, 700000))
 	c.Floor("multi-merge-base answers", c.Counter("mb_multi"), 50)
 	c.Assume("git 2.39.5 merge-base is the reference; merge-base semantics are definitional (best common ancestors) and unchanged across versions")
 	c.Assume("fast-forward test is exercised through Repository.Merge(FastForwardMerge) (same isFastForward as push/pull); shallow variants compare with git merge-base --is-ancestor in the same repository with the same .git/shallow, only when both commits exist")
